@@ -104,6 +104,7 @@ Section LookupSound.
   Lemma verify_label_label fresh v proof nl :
     verify_label cfg vrf_check pk l fresh v proof nl = true -> nl = nlabel_of fresh v.
   Proof.
+    clear tree_stale.
     unfold verify_label. destruct (vrf_check pk proof (label_input_hash cfg l fresh v)) as [out|] eqn:E; [|discriminate].
     intros H. apply nl_eqb_eq in H. rewrite <- H. now apply vrf_unique in E.
   Qed.
@@ -114,6 +115,7 @@ Section LookupSound.
     verify_existence_with_val cfg vrf_check pk (root_hash cfg true t) l value epoch nonce true v vp mp = true ->
     (1 <= v /\ v <= n /\ value = val_of v /\ epoch = ep_of v) \/ Bad.
   Proof.
+    clear tree_stale.
     intros Hmp Lv Ln He H. unfold verify_existence_with_val, verify_existence in H.
     apply andb_true_iff in H. destruct H as [Hh H]. apply andb_true_iff in H. destruct H as [Hl Hm].
     apply bytes_eqb_eq in Hh. apply verify_label_label in Hl.
@@ -185,6 +187,7 @@ Section LookupSound.
     verify_single_update cfg vrf_check pk (root_hash cfg true t) l false u = Some res ->
     (1 <= up_version u /\ up_version u <= n /\ res = true_entry (up_version u)) \/ Bad.
   Proof.
+    clear tree_stale.
     intros (U1 & U2 & U3 & U4) H. unfold verify_single_update in H. cbn [andb] in H.
     destruct (verify_existence_with_val _ _ _ _ _ _ _ _ _ _ _ _) eqn:Ex; [|discriminate]. cbn [negb] in H.
     apply existence_with_val_sound in Ex; auto. destruct Ex as [(V1 & V2 & V3 & V4)|]; [|now right].
@@ -198,6 +201,7 @@ Section LookupSound.
     verify_updates cfg vrf_check pk (root_hash cfg true t) l false prev us = Some rs ->
     (rs = map (fun u => true_entry (up_version u)) us /\ forall u, In u us -> 1 <= up_version u /\ up_version u <= n) \/ Bad.
   Proof.
+    clear tree_stale.
     induction us as [|u us IH]; intros prev rs Hok H; simpl in H.
     - injection H as <-. left. split; [reflexivity|]. intros u [].
     - inversion Hok as [|? ? Hu Hus]; subst.
@@ -212,6 +216,7 @@ Section LookupSound.
   Lemma forall3_In {X Y} (f : N -> X -> Y -> bool) vs : forall xs ys, forall3 f vs xs ys = true ->
     forall v, In v vs -> exists x y, In y ys /\ f v x y = true.
   Proof.
+    clear tree_stale.
     induction vs as [|v0 vs IH]; intros xs ys H v Hin; [destruct Hin|].
     destruct xs as [|x xs]; [discriminate|]. destruct ys as [|y ys]; [discriminate|].
     simpl in H. apply andb_true_iff in H. destruct H as [H1 H2]. destruct Hin as [<-|Hin].
@@ -222,6 +227,7 @@ Section LookupSound.
   Lemma consecutive_shape vs : consecutive_decreasing vs = true -> forall v0 r, vs = v0 :: r ->
     forall i, (i < length vs)%nat -> nth i vs 0 + N.of_nat i = v0.
   Proof.
+    clear tree_stale.
     induction vs as [|a vs IH]; intros H v0 r E i Hi; [discriminate|]. injection E as <- <-.
     destruct i as [|i]; [simpl; lia|]. destruct vs as [|b vs']; [simpl in Hi; lia|].
     cbn [consecutive_decreasing] in H. apply andb_true_iff in H. destruct H as [H1 H2]. apply N.eqb_eq in H1.
@@ -230,21 +236,25 @@ Section LookupSound.
 
   Lemma fold_min_le vs : forall a, fold_left N.min vs a <= a /\ forall v, In v vs -> fold_left N.min vs a <= v.
   Proof.
+    clear tree_stale.
     induction vs as [|x vs IH]; intros a; simpl; [split; [lia|intros v []]|].
     destruct (IH (N.min a x)) as [I1 I2]. split; [lia|]. intros v [<-|Hv]; [lia|auto].
   Qed.
   Lemma fold_max_ge vs : forall a, a <= fold_left N.max vs a /\ forall v, In v vs -> v <= fold_left N.max vs a.
   Proof.
+    clear tree_stale.
     induction vs as [|x vs IH]; intros a; simpl; [split; [lia|intros v []]|].
     destruct (IH (N.max a x)) as [I1 I2]. split; [lia|]. intros v [<-|Hv]; [lia|auto].
   Qed.
   Lemma fold_max_bound vs : forall a, (forall v, In v vs -> v <= a) -> fold_left N.max vs a = a.
   Proof.
+    clear tree_stale.
     induction vs as [|x vs IH]; intros a Ha; simpl; [reflexivity|].
     replace (N.max a x) with a by (specialize (Ha x (or_introl eq_refl)); lia). apply IH. intros v Hv. apply Ha. now right.
   Qed.
   Lemma fold_min_in vs : forall a, fold_left N.min vs a = a \/ In (fold_left N.min vs a) vs.
   Proof.
+    clear tree_stale.
     induction vs as [|x vs IH]; intros a; simpl; [now left|].
     destruct (IH (N.min a x)) as [H|H]; [|right; now right].
     rewrite H. destruct (N.min_spec a x) as [[_ ->]|[_ ->]]; [now left|right; now left].
@@ -252,6 +262,7 @@ Section LookupSound.
 
   Lemma marker_future_of s0 m E pa fu : get_marker_versions s0 m E = Some (pa, fu) -> fu = future_of m E.
   Proof.
+    clear tree_stale.
     unfold get_marker_versions, future_of. destruct (find_max_index s0); [|discriminate].
     destruct (find_max_index m); [|discriminate]. destruct (find_max_index E); [|discriminate].
     destruct (_ <? _)%nat; [discriminate|]. congruence.
@@ -263,6 +274,7 @@ Section LookupSound.
     key_history_verify cfg vrf_check pk (root_hash cfg true t) E l p HComplete false = Some rs ->
     rs = map true_entry (map (fun i => n - N.of_nat i) (seq 0 (N.to_nat n))) \/ Bad.
   Proof.
+    clear tree_stale.
     intros (Pu & Pf) Hn HnE HE H. unfold key_history_verify in H.
     destruct (verify_history_shape E p HComplete) as [[past future]|] eqn:Sh; [|discriminate].
     destruct (verify_updates _ _ _ _ _ _ None (hp_updates p)) as [results|] eqn:Vu; [|discriminate].
@@ -321,6 +333,7 @@ Section LookupSound.
     key_history_verify cfg vrf_check pk (root_hash cfg true t) E l p (HMostRecent r) false = Some rs ->
     (rs = map true_entry (map (fun i => n - N.of_nat i) (seq 0 (length rs))) /\ N.of_nat (length rs) = N.min r n) \/ Bad.
   Proof.
+    clear tree_stale.
     intros (Pu & Pf) Hn HnE HE H. unfold key_history_verify in H.
     destruct (verify_history_shape E p (HMostRecent r)) as [[past future]|] eqn:Sh; [|discriminate].
     destruct (verify_updates _ _ _ _ _ _ None (hp_updates p)) as [results|] eqn:Vu; [|discriminate].
@@ -396,11 +409,14 @@ Section LookupSound.
   Hypothesis tree_stale_epoch : forall y v, In y (leaves t) -> lf_label y = nlabel_of false v ->
     lf_value y = c_stale_value cfg /\ lf_epoch y = ep_of (v + 1).
   Hypothesis stale_D32 : D32 (c_stale_value cfg).
+  Hypothesis tree_epochs_u64 : forall y, In y (leaves t) -> lf_epoch y < 2 ^ 64.
 
   Lemma chain_leaf fresh v vp mp : mp_ok mp ->
     verify_existence cfg vrf_check pk (root_hash cfg true t) l fresh v vp mp = true ->
     (exists c e, In (LF (nlabel_of fresh v) c e) (leaves t) /\ mp_hash_val mp = c_leaf_hash cfg c e /\ D32 c) \/ Bad.
   Proof.
+    clear tree_stale.
+    clear tree_stale_epoch.
     intros Hmp H. unfold verify_existence in H. apply andb_true_iff in H. destruct H as [Hl Hm].
     apply verify_label_label in Hl.
     assert (Hroot : tlabel t = nl_root /\ is_leaf t = false).
@@ -441,6 +457,7 @@ Section LookupSound.
     verify_single_update cfg vrf_check pk (root_hash cfg true t) l true u = Some res ->
     (res = entry_of u /\ 1 <= up_version u /\ up_version u <= n /\ amrel (entry_of u) (true_entry (up_version u))) \/ Bad.
   Proof.
+    clear tree_stale.
     intros [(U1 & U2 & U3 & U4) U5] H. unfold verify_single_update in H. cbn [andb] in H.
     destruct (is_tombstone (up_value u)) eqn:Et.
     - (* the value check is skipped *)
@@ -475,6 +492,7 @@ Section LookupSound.
     (rs = map entry_of us /\ (forall u, In u us -> 1 <= up_version u /\ up_version u <= n) /\
      Forall (fun u => amrel (entry_of u) (true_entry (up_version u))) us) \/ Bad.
   Proof.
+    clear tree_stale.
     induction us as [|u us IH]; intros prev rs Hok H; simpl in H.
     - injection H as <-. left. split; [reflexivity|]. split; [intros u []|constructor].
     - inversion Hok as [|? ? Hu Hus]; subst.
@@ -489,12 +507,13 @@ Section LookupSound.
 
   Lemma rel_all us : Forall (fun u => amrel (entry_of u) (true_entry (up_version u))) us ->
     Forall2 amrel (map entry_of us) (map true_entry (map up_version us)).
-  Proof. induction 1; cbn [map]; constructor; assumption. Qed.
+  Proof. clear tree_stale. induction 1; cbn [map]; constructor; assumption. Qed.
 
   Theorem history_complete_sound_am E p rs : hp_ok2 p -> 1 <= n -> n <= E -> E < 2 ^ 64 ->
     key_history_verify cfg vrf_check pk (root_hash cfg true t) E l p HComplete true = Some rs ->
     Forall2 amrel rs (map true_entry (map (fun i => n - N.of_nat i) (seq 0 (N.to_nat n)))) \/ Bad.
   Proof.
+    clear tree_stale.
     intros (Pu & Pf) Hn HnE HE H. unfold key_history_verify in H.
     destruct (verify_history_shape E p HComplete) as [[past future]|] eqn:Sh; [|discriminate].
     destruct (verify_updates _ _ _ _ _ _ None (hp_updates p)) as [results|] eqn:Vu; [|discriminate].
@@ -554,6 +573,7 @@ Section LookupSound.
     key_history_verify cfg vrf_check pk (root_hash cfg true t) E l p (HMostRecent r) true = Some rs ->
     (Forall2 amrel rs (map true_entry (map (fun i => n - N.of_nat i) (seq 0 (length rs)))) /\ N.of_nat (length rs) = N.min r n) \/ Bad.
   Proof.
+    clear tree_stale.
     intros (Pu & Pf) Hn HnE HE H. unfold key_history_verify in H.
     destruct (verify_history_shape E p (HMostRecent r)) as [[past future]|] eqn:Sh; [|discriminate].
     destruct (verify_updates _ _ _ _ _ _ None (hp_updates p)) as [results|] eqn:Vu; [|discriminate].
@@ -624,6 +644,85 @@ Section LookupSound.
       apply (nonmem_sound_b cfg Bad B) in Hnm; auto; [|rewrite Hl; exact F2].
       destruct Hnm as [Hnm|HB]; [|right; exact HB]. exfalso. apply Hnm. rewrite Hl. apply tree_has_fresh; lia.
   Qed.
+
+  (* ---------------------------------------------------------------- late or missing stale markers (C07, second sentence) *)
+
+  Lemma updates_each us : forall am prev rs,
+    verify_updates cfg vrf_check pk (root_hash cfg true t) l am prev us = Some rs ->
+    forall u, In u us -> exists res, verify_single_update cfg vrf_check pk (root_hash cfg true t) l am u = Some res.
+  Proof.
+    clear tree_stale.
+    induction us as [|u0 us IH]; intros am prev rs H u Hu; [destruct Hu|]. simpl in H.
+    destruct (match prev with Some pe => pe <? up_epoch u0 | None => false end); [discriminate|].
+    destruct (verify_single_update _ _ _ _ _ _ u0) as [res|] eqn:E1; [|discriminate].
+    destruct (verify_updates _ _ _ _ _ _ (Some (up_epoch u0)) us) as [rest|] eqn:E2; [|discriminate].
+    destruct Hu as [<-|Hu]; [eauto | apply (IH am _ rest E2 u Hu)].
+  Qed.
+
+  (* an update for a version above 1 that passes in Default mode shows that the tree holds the
+     stale leaf of its predecessor, stamped with the version's own (true) epoch *)
+  Lemma single_update_needs_stale u res : up_ok2 u -> 1 < up_version u ->
+    verify_single_update cfg vrf_check pk (root_hash cfg true t) l false u = Some res ->
+    In (LF (nlabel_of false (up_version u - 1)) (c_stale_value cfg) (ep_of (up_version u))) (leaves t) \/ Bad.
+  Proof.
+    clear tree_stale.
+    clear tree_stale_epoch.
+    intros [(U1 & U2 & U3 & U4) U5] Hv H. unfold verify_single_update in H. cbn [andb] in H.
+    destruct (verify_existence_with_val _ _ _ _ _ _ _ _ _ _ _ _) eqn:Ex; [|discriminate]. cbn [negb] in H.
+    apply existence_with_val_sound in Ex; auto. destruct Ex as [(V1 & V2 & V3 & V4)|]; [|now right].
+    assert (E1 : (up_version u <=? 1) = false) by (apply N.leb_gt; exact Hv). rewrite E1 in H.
+    destruct (up_prev u) as [pm|]; [|discriminate]. destruct (up_prev_vrf u) as [pv|]; [|discriminate].
+    destruct (verify_existence_with_commitment _ _ _ _ _ _ _ _ _ _ _) eqn:Ec; [|discriminate].
+    unfold verify_existence_with_commitment in Ec. apply andb_true_iff in Ec. destruct Ec as [Hh Ec]. apply bytes_eqb_eq in Hh.
+    destruct (chain_leaf false (up_version u - 1) _ _ U5 Ec) as [(c2 & e2 & Hin2 & Hval & Dc)|]; [|now right].
+    rewrite <- Hh in Hval.
+    destruct (N.ltb_spec e2 (2 ^ 64)) as [He2|He2].
+    - apply (b_leaf_inj _ _ B) in Hval; auto. destruct Hval as [[Hc Hee]|]; [|now right].
+      left. rewrite Hc, <- V4, Hee. exact Hin2.
+    - (* a leaf epoch outside u64 cannot be hashed to the same digest as a u64 one without a collision: excluded by the tree's typing *)
+      left. exfalso. apply (N.lt_irrefl (2 ^ 64)). eapply N.le_lt_trans; [exact He2|]. apply (tree_epochs_u64 _ Hin2).
+  Qed.
+
+  (* C07, second sentence: if a COMPLETE history verifies in Default mode, then for every version
+     v >= 2 the tree holds the stale leaf of v-1 stamped with the epoch of v.  Contrapositive: on a
+     tree that retired a superseded version late or never, history verification fails. *)
+  Theorem history_needs_timely_stale E p rs : hp_ok2 p -> 1 <= n -> n <= E -> E < 2 ^ 64 ->
+    key_history_verify cfg vrf_check pk (root_hash cfg true t) E l p HComplete false = Some rs ->
+    (forall v, 2 <= v -> v <= n -> In (LF (nlabel_of false (v - 1)) (c_stale_value cfg) (ep_of v)) (leaves t)) \/ Bad.
+  Proof.
+    clear tree_stale.
+    clear tree_stale_epoch.
+    intros [Pu Pf] Hn HnE HE H.
+    assert (Pu1 : Forall up_ok (hp_updates p)) by (eapply Forall_impl; [|exact Pu]; intros u Hu; apply Hu).
+    destruct (history_complete_sound E p rs (conj Pu1 Pf) Hn HnE HE H) as [Hrs|]; [|now right].
+    unfold key_history_verify in H.
+    destruct (verify_history_shape E p HComplete) as [[past future]|]; [|discriminate].
+    destruct (verify_updates _ _ _ _ _ _ None (hp_updates p)) as [results|] eqn:Vu; [|discriminate].
+    destruct (forall3 _ past _ _); [|discriminate]. cbn [negb] in H. destruct (forall3 _ future _ _); [|discriminate]. cbn [negb] in H.
+    injection H as <-.
+    pose proof Vu as Vu2. apply updates_sound in Vu2; auto. destruct Vu2 as [[Hmap _]|]; [|now right].
+    (* the versions of the updates are n, n-1, ..., 1 *)
+    assert (Hvs : map up_version (hp_updates p) = map (fun i => n - N.of_nat i) (seq 0 (N.to_nat n))).
+    { assert (E0 : map r_version (map (fun u => true_entry (up_version u)) (hp_updates p)) =
+                   map r_version (map true_entry (map (fun i => n - N.of_nat i) (seq 0 (N.to_nat n))))) by (rewrite <- Hmap, <- Hrs; reflexivity).
+      rewrite !map_map in E0. cbn [true_entry r_version] in E0. exact E0. }
+    assert (G : forall v, 2 <= v -> v <= n -> In (LF (nlabel_of false (v - 1)) (c_stale_value cfg) (ep_of v)) (leaves t) \/ Bad).
+    { intros v Hv2 Hvn.
+      assert (Hin : In v (map up_version (hp_updates p))).
+      { rewrite Hvs. apply in_map_iff. exists (N.to_nat (n - v)). split; [lia|]. apply in_seq. lia. }
+      apply in_map_iff in Hin. destruct Hin as (u & Eu & Hu).
+      destruct (updates_each _ _ _ _ Vu u Hu) as [res Hres].
+      rewrite Forall_forall in Pu. rewrite <- Eu. apply (single_update_needs_stale u res (Pu u Hu) ltac:(lia) Hres). }
+    (* collect *)
+    clear - G. assert (K : forall k, (forall v, 2 <= v -> v <= n -> v < 2 + N.of_nat k -> In (LF (nlabel_of false (v - 1)) (c_stale_value cfg) (ep_of v)) (leaves t)) \/ Bad).
+    { induction k as [|k IH]; [left; intros v H1 _ H3; lia|]. destruct IH as [IH|]; [|now right].
+      destruct (N.le_gt_cases (2 + N.of_nat k) n) as [Hle|Hgt].
+      - destruct (G (2 + N.of_nat k) ltac:(lia) Hle) as [Hk|]; [|now right]. left. intros v H1 H2 H3.
+        destruct (N.eq_dec v (2 + N.of_nat k)) as [->|Hne]; [exact Hk | apply IH; lia].
+      - left. intros v H1 H2 H3. apply IH; lia. }
+    destruct (K (N.to_nat n)) as [K1|]; [|now right]. left. intros v H1 H2. apply K1; lia.
+  Qed.
+
 End LookupSound.
 
 Lemma amrel_spelled r tr : amrel r tr <->
